@@ -154,6 +154,7 @@ func (fx *FX) runTop() (errmsg string) {
 				g := fx.evalBool(env, cl.Expr)
 				fx.oblige(x.st, "post", fmt.Sprintf("ensures#%d%s@ret#%d", j+1, lbl(cl), x.idx+1), cl.Text, g, x.pos, propsOr(cl.Props, c.Props))
 			}
+			fx.frameObligations(entry, x)
 			for j, cl := range c.ClosureInv {
 				g := fx.evalBool(env, cl.Expr)
 				fx.oblige(x.st, "post", fmt.Sprintf("closure-invariant#%d@ret#%d", j+1, x.idx+1), cl.Text, g, x.pos, propsOr(cl.Props, c.Props))
@@ -192,17 +193,25 @@ func (fx *FX) buildScripts() {
 			fx.unsupported = append(fx.unsupported, "unknown axiom set "+a)
 		}
 	}
-	var prefix strings.Builder
+	var prefix, qfPrefix strings.Builder
 	for _, it := range fx.items {
 		switch it.kind {
 		case "decl", "assume":
 			prefix.WriteString(it.text)
 			prefix.WriteString("\n")
+			if !(it.kind == "assume" && strings.Contains(it.text, "forall")) {
+				qfPrefix.WriteString(it.text)
+				qfPrefix.WriteString("\n")
+			}
 		case "oblig":
 			var b strings.Builder
 			b.WriteString("; obligation " + it.ob.Name + "\n; clause: " + it.ob.Clause + "\n")
 			b.WriteString("(set-option :produce-models true)\n(set-logic ALL)\n")
 			tail := specs.String() + prefix.String() + "(assert " + it.reach.S + ")\n" + "(assert (not " + it.goal.S + "))\n"
+			if it.ob.Kind == "cover" {
+				// vacuity guards are decided on the quantifier-free part of the assumptions
+				tail = stripQuantifiedAsserts(specs.String()) + qfPrefix.String() + "(assert " + it.reach.S + ")\n"
+			}
 			b.WriteString(e.W.Preamble(tail))
 			b.WriteString(tail)
 			b.WriteString("(check-sat)\n")
@@ -247,4 +256,66 @@ func (e *Engine) VerifyLemma(c *Contract) *FuncResult {
 		res.Obligations = fx.obs
 	}
 	return res
+}
+
+// frameObligations: a function with a `pure` or `modifies` clause leaves every other state
+// component unchanged on the objects that existed when it was called.
+func (fx *FX) frameObligations(entry *State, x exitPoint) {
+	c := fx.c
+	if c == nil || !c.HasMod {
+		return
+	}
+	allowed := map[string]bool{"$alloc": true}
+	for _, m := range c.Modifies {
+		if m == "*" {
+			return
+		}
+		for _, k := range fx.expandCompName(m) {
+			allowed[k] = true
+		}
+	}
+	var keys []string
+	for k := range fx.knownComps {
+		keys = append(keys, k)
+	}
+	sort.Strings(keys)
+	alloc0 := fx.comp(entry, "$alloc", SInt)
+	for _, k := range keys {
+		if allowed[k] {
+			continue
+		}
+		e0 := fx.comp(entry, k, fx.compSorts[k])
+		e1 := fx.comp(x.st, k, fx.compSorts[k])
+		if e0.S == e1.S {
+			continue
+		}
+		var goal Term
+		switch {
+		case strings.HasPrefix(k, "M:") || strings.HasPrefix(k, "H:") || strings.HasPrefix(k, "B:"):
+			goal = T(fmt.Sprintf("(forall ((q_r Int)) (=> (and (<= 0 q_r) (< q_r %s)) (= (select %s q_r) (select %s q_r))))", alloc0.S, e1.S, e0.S), SBool)
+		default:
+			goal = IdEq(e0, e1)
+		}
+		fx.oblige(x.st, "frame", fmt.Sprintf("frame(%s)@ret#%d", k, x.idx+1), "unchanged outside the modifies clause: "+k, goal, x.pos, nil)
+	}
+}
+
+// stripQuantifiedAsserts drops top-level (assert (forall ...)) forms from SMT text.
+func stripQuantifiedAsserts(text string) string {
+	var b strings.Builder
+	p := 0
+	for p < len(text) {
+		p = skipWS(text, p)
+		if p >= len(text) {
+			break
+		}
+		s, e := readSexp(text, p)
+		p = e
+		if strings.HasPrefix(s, "(assert") && strings.Contains(s, "forall") {
+			continue
+		}
+		b.WriteString(s)
+		b.WriteString("\n")
+	}
+	return b.String()
 }
